@@ -179,6 +179,120 @@ theorem xi_exact (K : Nat) (pi : Nat → Rat) (A : Nat → Nat → Rat) (B : Lis
     simp only [FB.likelihood]
     exact xi_exact_aux K pi A b0 bs (hc _ (by simp)) (fun s hs => hc s (by simp [hs])) t ht i j hi hj
 
+/-! ## Deepening round D: the code establishes the hypotheses of the theorems above -/
+
+/-- For every model whose parameters are probability weights (`π ≥ 0` with a positive total, `A ≥ 0`
+    with a positive total in every row — zero entries allowed) and whose emission densities are
+    positive (every Gaussian density is), **every scaling factor `c_t` the forward pass computes is
+    positive**: the hypothesis `c_t ≠ 0` of `likelihood_exact`, `gamma_normalised`, `gamma_exact`,
+    `xi_exact`, `update_normalised` is established by the code itself. -/
+theorem scaling_positive (K : Nat) (pi : Nat → Rat) (A : Nat → Nat → Rat) (B : List Vec) (r : FB)
+    (h : forwardBackward K pi A B = some r) (hp : posModel K pi A B = true) :
+    ∀ s ∈ r.steps, 0 < s.c := by
+  cases B with
+  | nil => simp [forwardBackward] at h
+  | cons b0 bs =>
+    simp only [forwardBackward, Option.some.injEq] at h
+    subst h
+    exact (fb_pos K pi A b0 bs hp).1
+
+/-- Under the same conditions the posteriors are probabilities: `γ_t(i) ≥ 0`, `ξ_t(i,j) ≥ 0`
+    (with `gamma_normalised`: every `γ_t` is a distribution over the states). -/
+theorem posteriors_nonneg (K : Nat) (pi : Nat → Rat) (A : Nat → Nat → Rat) (B : List Vec) (r : FB)
+    (h : forwardBackward K pi A B = some r) (hp : posModel K pi A B = true) :
+    (∀ g ∈ r.gammas, ∀ i, i < K → 0 ≤ atR g i) ∧
+    (∀ x ∈ r.xis, ∀ i j, i < K → j < K → 0 ≤ atR (x.getD i []) j) := by
+  cases B with
+  | nil => simp [forwardBackward] at h
+  | cons b0 bs =>
+    simp only [forwardBackward, Option.some.injEq] at h
+    subst h
+    exact ⟨(fb_pos K pi A b0 bs hp).2.1, (fb_pos K pi A b0 bs hp).2.2.1⟩
+
+/-- A state that is possible initially (`π_i > 0`) has positive occupancy before the last time point
+    as soon as the trace has two samples: the denominator of row `i` of the updated transition
+    matrix is not zero. -/
+theorem occupancy_positive (K : Nat) (pi : Nat → Rat) (A : Nat → Nat → Rat) (B : List Vec) (r : FB)
+    (h : forwardBackward K pi A B = some r) (hp : posModel K pi A B = true) (hT : 2 ≤ B.length)
+    (i : Nat) (hi : i < K) (hpi : 0 < pi i) : 0 < occupancy r.gammas i := by
+  obtain ⟨hlen, _⟩ := gamma_normalised K pi A B r h
+    (fun s hs => ne_of_gt (scaling_positive K pi A B r h hp s hs))
+  have hnn := (posteriors_nonneg K pi A B r h hp).1
+  have hhead : 0 < atR (r.gammas.headD []) i := by
+    cases B with
+    | nil => simp [forwardBackward] at h
+    | cons b0 bs =>
+      simp only [forwardBackward, Option.some.injEq] at h
+      subst h
+      exact (fb_pos K pi A b0 bs hp).2.2.2 i hi hpi
+  match hg : r.gammas, hlen, hnn, hhead with
+  | [], hlen, _, _ => simp at hlen; omega
+  | [_], hlen, _, _ => simp at hlen; omega
+  | g0 :: g1 :: gs, _, hnn, hhead =>
+    simp only [occupancy, sumT, List.dropLast_cons_cons, List.map_cons, List.sum_cons, List.headD_cons] at hhead ⊢
+    have : 0 ≤ sumT (g1 :: gs).dropLast (fun g => atR g i) :=
+      sumT_nonneg _ _ (fun g hg' => hnn g (List.mem_cons_of_mem _ (List.mem_of_mem_dropLast hg')) i hi)
+    simp only [sumT] at this
+    linarith
+
+/-- **Hypothesis-free form** of the inference clauses for the models the property speaks about
+    (probability weights, positive emission densities): the reported likelihood is the sum over all
+    `K^T` paths, every `γ_t` is a distribution, `γ` and `ξ` are the exact posteriors. -/
+theorem inference_exact_of_posModel (K : Nat) (pi : Nat → Rat) (A : Nat → Nat → Rat) (B : List Vec) (r : FB)
+    (h : forwardBackward K pi A B = some r) (hp : posModel K pi A B = true) :
+    r.likelihood = likelihoodSpec K pi A B ∧ 0 < r.likelihood ∧
+    (∀ g ∈ r.gammas, sumK K (atR g) = 1 ∧ ∀ i, i < K → 0 ≤ atR g i) ∧
+    (∀ t i, t < B.length → i < K →
+      atR (r.gammas.getD t []) i * r.likelihood = pinnedSpec K pi A B t i) ∧
+    (∀ t i j, t + 1 < B.length → i < K → j < K →
+      atR (((r.xis.getD t []).getD i [])) j * r.likelihood = pinned2Spec K pi A B t i j) := by
+  have hpos := scaling_positive K pi A B r h hp
+  have hc : ∀ s ∈ r.steps, s.c ≠ 0 := fun s hs => ne_of_gt (hpos s hs)
+  refine ⟨likelihood_exact K pi A B r h hc, prodL_pos _ (fun x hx => by
+      obtain ⟨s, hs, rfl⟩ := List.mem_map.mp hx; exact hpos s hs), ?_,
+    fun t i ht hi => gamma_exact K pi A B r h hc t ht i hi,
+    fun t i j ht hi hj => xi_exact K pi A B r h hc t ht i j hi hj⟩
+  intro g hg
+  exact ⟨(gamma_normalised K pi A B r h hc).2 g hg, (posteriors_nonneg K pi A B r h hp).1 g hg⟩
+
+/-- **Hypothesis-free form** of the normalisation clause of a Baum–Welch step: for a trace of at
+    least two samples and a model in which every initial state is possible, `π'` and **every** row of
+    `A'` sum to one (no occupancy side condition). -/
+theorem update_normalised_of_posModel (K : Nat) (pi : Nat → Rat) (A : Nat → Nat → Rat) (B : List Vec)
+    (r : FB) (h : forwardBackward K pi A B = some r) (hp : posModel K pi A B = true)
+    (hT : 2 ≤ B.length) (hpi : ∀ i, i < K → 0 < pi i) :
+    sumK K (atR (updPi r.gammas)) = 1 ∧
+    ∀ i, i < K → sumK K (atR ((updA K r.gammas r.xis).getD i [])) = 1 := by
+  have hc : ∀ s ∈ r.steps, s.c ≠ 0 := fun s hs => ne_of_gt (scaling_positive K pi A B r h hp s hs)
+  obtain ⟨h1, h2⟩ := update_normalised K pi A B r h hc
+  exact ⟨h1, fun i hi => h2 i hi (ne_of_gt (occupancy_positive K pi A B r h hp hT i hi (hpi i hi)))⟩
+
+/-- Non-vacuity of `posModel` (a model with zero entries in `π` and `A`), and the conclusions on it. -/
+example :
+    posModel 2 (atR [1, 0]) (fnOfRows [[9/10, 1/10], [0, 1]]) [[1/2, 1/3], [1/5, 1/7], [1/3, 1/2]] = true ∧
+    ∃ r, forwardBackward 2 (atR [1, 0]) (fnOfRows [[9/10, 1/10], [0, 1]])
+        [[1/2, 1/3], [1/5, 1/7], [1/3, 1/2]] = some r ∧ (∀ s ∈ r.steps, 0 < s.c) ∧
+      0 < occupancy r.gammas 0 := by
+  refine ⟨by decide +kernel, _, rfl, ?_, ?_⟩ <;> decide +kernel
+
+/-- The hypotheses are needed (kernel-checked witnesses).
+    (1) An observation that is impossible under the model (`B_0 = 0` where `π > 0`): `c_0 = 0`, and
+        `γ_0` sums to 0, not 1 (the code returns NaN).
+    (2) A trace of ONE sample: the occupancy before the last time point is an empty sum, every row
+        of `A'` is `0/0` (the model's total division gives 0, the code NaN) — not normalised.
+    (3) A state that is impossible initially and unreachable (`π_1 = 0`, `A_{01} = 0`): its
+        occupancy is 0 and row 1 of `A'` is `0/0` although every `c_t > 0`. -/
+theorem hypotheses_needed :
+    (∃ r, forwardBackward 2 (atR [1, 0]) (fnOfRows [[1/2, 1/2], [1/2, 1/2]]) [[0, 1], [1, 1]] = some r ∧
+      (∃ s ∈ r.steps, s.c = 0) ∧ ∃ g ∈ r.gammas, sumK 2 (atR g) ≠ 1) ∧
+    (∃ r, forwardBackward 2 (atR [1/2, 1/2]) (fnOfRows [[1/2, 1/2], [1/2, 1/2]]) [[1/3, 1/5]] = some r ∧
+      posModel 2 (atR [1/2, 1/2]) (fnOfRows [[1/2, 1/2], [1/2, 1/2]]) [[1/3, 1/5]] = true ∧
+      sumK 2 (atR ((updA 2 r.gammas r.xis).getD 0 [])) ≠ 1) ∧
+    (∃ r, forwardBackward 2 (atR [1, 0]) (fnOfRows [[1, 0], [1/2, 1/2]]) [[1/3, 1/5], [1/2, 1/7]] = some r ∧
+      posModel 2 (atR [1, 0]) (fnOfRows [[1, 0], [1/2, 1/2]]) [[1/3, 1/5], [1/2, 1/7]] = true ∧
+      occupancy r.gammas 1 = 0 ∧ sumK 2 (atR ((updA 2 r.gammas r.xis).getD 1 [])) ≠ 1) := by
+  refine ⟨⟨_, rfl, ?_, ?_⟩, ⟨_, rfl, ?_, ?_⟩, ⟨_, rfl, ?_, ?_, ?_⟩⟩ <;> decide +kernel
+
 /-
   ext `em_monotone` (NOT proved; stated for the record, explored only by the harness):
   for the model `m' = update m (γ, ξ)` obtained from the E-step of `m` on data `y` with all `c_t ≠ 0`,
